@@ -400,6 +400,11 @@ func (fw *FileWriter) Close() error {
 		return err
 	}
 
+	// From here on the descriptor is released on every path, so the writer is closed
+	// whatever happens: a writer that stayed "open" on a closed descriptor would accept
+	// entries into its buffer and fail every later flush.
+	fw.closed = true
+
 	// Update header
 	if err := fw.writeFileHeader(); err != nil {
 		fw.file.Close()
@@ -415,7 +420,6 @@ func (fw *FileWriter) Close() error {
 		return err
 	}
 
-	fw.closed = true
 	return fw.file.Close()
 }
 
